@@ -6,6 +6,8 @@
 -/
 import Rl.Wire
 import Rl.Drv.History
+import Rl.Drv.Hint
+import Rl.Drv.Highlight
 import Rl.Drv.Keys
 import Rl.Drv.Editor
 import Rl.Drv.Ed
@@ -24,6 +26,8 @@ def dispatch (tbl : CharTable) (target : String) (f : List String) (impl : Strin
   let r : Option (String × String) :=
     match target with
     | "hist" => Rl.Drv.History.handle tbl f impl
+    | "hint" => Rl.Drv.Hint.handle tbl f impl
+    | "hl" => Rl.Drv.Highlight.handle tbl f impl
     | "keys" => Rl.Drv.Keys.handle tbl f impl
     | "direct" => Rl.Drv.Direct.handle tbl f impl
     | "seg" => Rl.Drv.Direct.handleSeg tbl f impl
